@@ -53,6 +53,7 @@ type CondRec struct {
 	Neg   bool
 	P     Lin
 	Bytes map[types.Object]Lin // locals that hold lex.data[<index>] at that moment
+	Ints  map[types.Object]Lin // integer locals that hold a linear expression of the cursor variables
 }
 
 // Outcome is one path through an action block.
@@ -64,6 +65,7 @@ type Outcome struct {
 	CondX     []CondRec
 	Undec     []string
 	bytes     map[types.Object]Lin
+	ints      map[types.Object]Lin // integer locals that hold a linear expression of the cursor variables (p := lex.p)
 	isDefault bool
 	defaultAt int
 }
@@ -74,6 +76,12 @@ func (o *Outcome) clone() *Outcome {
 	n.Conds = append([]string(nil), o.Conds...)
 	n.Undec = append([]string(nil), o.Undec...)
 	n.CondX = append([]CondRec(nil), o.CondX...)
+	if o.ints != nil {
+		n.ints = map[types.Object]Lin{}
+		for k, v := range o.ints {
+			n.ints[k] = v
+		}
+	}
 	if o.bytes != nil {
 		n.bytes = map[types.Object]Lin{}
 		for k, v := range o.bytes {
@@ -151,6 +159,14 @@ func (m *Machine) lin(e ast.Expr, o *Outcome) (Lin, bool) {
 		}
 	}
 	switch x := e.(type) {
+	case *ast.Ident:
+		if o.ints != nil {
+			if obj := m.info().ObjectOf(x); obj != nil {
+				if v, ok := o.ints[obj]; ok {
+					return v, true
+				}
+			}
+		}
 	case *ast.SelectorExpr:
 		if id, ok := x.X.(*ast.Ident); ok && id.Name == "lex" {
 			switch x.Sel.Name {
@@ -323,6 +339,19 @@ func (m *Machine) exec(st ast.Stmt, o *Outcome) []*Outcome {
 				}
 			}
 			if obj != nil {
+				if o.ints != nil {
+					delete(o.ints, obj)
+				}
+				if len(x.Rhs) == 1 && !m.markSet()[obj] {
+					if b, isInt := obj.Type().Underlying().(*types.Basic); isInt && b.Kind() == types.Int {
+						if v, ok := m.lin(x.Rhs[0], o); ok {
+							if o.ints == nil {
+								o.ints = map[types.Object]Lin{}
+							}
+							o.ints[obj] = v
+						}
+					}
+				}
 				if o.bytes != nil {
 					delete(o.bytes, obj)
 				}
@@ -427,8 +456,8 @@ func (m *Machine) exec(st ast.Stmt, o *Outcome) []*Outcome {
 		cond := types.ExprString(x.Cond)
 		t := o.clone()
 		t.Conds = append(t.Conds, cond)
-		t.CondX = append(t.CondX, CondRec{X: x.Cond, P: o.P, Bytes: copyBytes(o.bytes)})
-		o.CondX = append(o.CondX, CondRec{X: x.Cond, Neg: true, P: o.P, Bytes: copyBytes(o.bytes)})
+		t.CondX = append(t.CondX, CondRec{X: x.Cond, P: o.P, Bytes: copyBytes(o.bytes), Ints: copyBytes(o.ints)})
+		o.CondX = append(o.CondX, CondRec{X: x.Cond, Neg: true, P: o.P, Bytes: copyBytes(o.bytes), Ints: copyBytes(o.ints)})
 		if strings.Contains(cond, "lex.is") {
 			t.Events = append(t.Events, Event{Kind: "pred", ID: cond, TS: t.TS, TE: t.TE, At: st.Pos()})
 		}
@@ -474,8 +503,8 @@ func (m *Machine) exec(st ast.Stmt, o *Outcome) []*Outcome {
 			t.Conds = append(t.Conds, tag+"=="+strings.Join(labels, "|"))
 			if disj != nil {
 				t.CondX = append(t.CondX, before...)
-				t.CondX = append(t.CondX, CondRec{X: disj, P: o.P, Bytes: copyBytes(o.bytes)})
-				before = append(before, CondRec{X: disj, Neg: true, P: o.P, Bytes: copyBytes(o.bytes)})
+				t.CondX = append(t.CondX, CondRec{X: disj, P: o.P, Bytes: copyBytes(o.bytes), Ints: copyBytes(o.ints)})
+				before = append(before, CondRec{X: disj, Neg: true, P: o.P, Bytes: copyBytes(o.bytes), Ints: copyBytes(o.ints)})
 			} else {
 				t.defaultAt = len(t.CondX) // the default clause: every other clause's condition is false (filled in below)
 				t.isDefault = true
